@@ -1170,7 +1170,7 @@ def dbg_type_meta(name, named_field, form):
         ps.append(["name = false", "name(false)", "rename = false"][form % 3])
     if named_field is not None:
         ps.append(["named_field = %s", "named_field(%s)"][form % 2] % ("true" if named_field else "false"))
-    if form % 2:
+    if (form // 2) % 2:      # order independent of the value spellings (form % 2, % 3, % 5)
         ps.reverse()
     return "Debug(%s)" % ", ".join(ps) if ps else None
 
@@ -1188,7 +1188,10 @@ def dbg_field(name, ty, a, form, struct_style):
     if a == "M" and struct_style:
         m = DBG_METHODS[form % 2]
         sem["method"] = m; sem["key"] = "mk%d" % (form % 5)
-        attrs.append("Debug(%s, %s)" % (spell_param("method", m, form), ["name = %s", "rename(%s)"][form % 2] % sem["key"]))
+        two = [spell_param("method", m, form), ["name = %s", "rename(%s)"][form % 2] % sem["key"]]
+        if (form // 2) % 2:
+            two.reverse()
+        attrs.append("Debug(%s)" % ", ".join(two))
         return Field(name, "u8", attrs=attrs, debug=sem)
     if a == "b" and struct_style:
         # ignored AND renamed: ignore wins, nothing is shown
@@ -1499,10 +1502,12 @@ def c14(tier, seed):
         P = add(Program(c.pid(), "struct", "S", [Variant(None, "named", fs)], [newsp], focus={"Default"}, note="C14 Default `%s` / `%s`" % (sp, newsp),
                         default={"new": newsp != "Default"}))
         P.tags["mk"] = "// no inputs"
-    for j, tl in enumerate(["Default(expression = S { a: 3, b: true })", "Default(expr = S { a: 3, b: true })", "Default(expression(S { a: 3, b: true }))", "Default(expr(S { a: 3, b: true }))"]):
+    for j, tl in enumerate(["Default(expression = S { a: 3, b: true })", "Default(expr = S { a: 3, b: true })", "Default(expression(S { a: 3, b: true }))", "Default(expr(S { a: 3, b: true }))",
+                            "Default(expression = S { a: 3, b: true }, new)", "Default(new = true, expr(S { a: 3, b: true }))", "Default(expr = S { a: 3, b: true }, new(true))",
+                            "Default(new, expression(S { a: 3, b: true }))", "Default(new = false, expr = S { a: 3, b: true })", "Default(expression(S { a: 3, b: true }), new(false))"]):
         fs = [Field("a", "u8", default={"expected": "x"}), Field("b", "bool", default={"expected": "x"})]
         P = add(Program(c.pid(), "struct", "S", [Variant(None, "named", fs)], [tl], focus={"Default"}, note="C14 type-level `%s`" % tl,
-                        default={"new": False, "type_expected": "S { a: 3u8, b: true }"}))
+                        default={"new": "new" in tl and "false" not in tl, "type_expected": "S { a: 3u8, b: true }"}))
         P.tags["mk"] = "// no inputs"
     # ---- Into method forms, one list vs several attributes
     for j, msp in enumerate(val_forms("method", "crate::m::into_a")):
